@@ -278,4 +278,45 @@ theorem setObsA_ok (a : ATab V) (nm : String) (i : Nat) (v : V) (col : List V) (
   unfold setObsA
   simp only [hx, hy, hz, Bool.or_false, Bool.false_eq_true, if_false, hl, hi, if_true]
 
+theorem removeA_ok (a : ATab V) (nm : String) (h : (lookup a.cols nm).isSome = true) :
+    removeA nm a = (.ok (), { a with cols := a.cols.filter (fun p => !(p.1 == nm)) }) := by
+  unfold removeA hasA
+  simp only [h, Bool.true_or, Bool.not_true, Bool.false_eq_true, if_false]
+  cases hl : lookup a.cols nm with
+  | none => rw [hl] at h; cases h
+  | some c => rfl
+
+theorem find_none_of_not_mem (d : List (String × Nat)) (nm : String) (h : nm ∉ d.map Prod.fst) : find d nm = none := by
+  induction d with
+  | nil => rfl
+  | cons p t ih =>
+    unfold find at ih ⊢
+    simp only [List.map_cons, List.mem_cons, not_or] at h
+    have : (p.1 == nm) = false := by
+      have := h.1
+      simp [Ne.symm this]
+    simp only [List.find?_cons, this]
+    exact ih h.2
+
+theorem find_isSome_of_mem (d : List (String × Nat)) (nm : String) (h : nm ∈ d.map Prod.fst) : (find d nm).isSome = true := by
+  induction d with
+  | nil => simp at h
+  | cons p t ih =>
+    unfold find at ih ⊢
+    simp only [List.find?_cons]
+    by_cases hp : (p.1 == nm) = true
+    · simp [hp]
+    · simp only [hp]
+      apply ih
+      simp only [List.map_cons, List.mem_cons] at h
+      rcases h with h | h
+      · exact absurd (by simp [h]) hp
+      · exact h
+
+/-- the second component of a simulation step, as an equation between tables -/
+theorem sim_snd {α : Type} {P : α → Prop} {m : M (St V) α} {ma : M (ATab V) α} (hs : Sim n P m ma)
+    {st : St V} (h : Inv n st) : (ma (abs st)).1 = (m st).1 ∧ (ma (abs st)).2 = abs (m st).2 := by
+  have := (hs st h).2.1
+  rw [this]; exact ⟨rfl, rfl⟩
+
 end TV.Features
